@@ -18,7 +18,9 @@ RULE = ('Hypothesis documents: profile "full" exported in the four non-agnostic 
         'row/column shape and chord sizes; the same six texts must come out of ONE ExportOptions object (one category '
         'set) whose encoding is switched through a drawn permutation of the encodings and back; (2) every encoding equals kv/xform.py T applied to the aligned eKern grid '
         '(headers "**"+prefix+type, non-note cells identical, basic = decorations removed member by member, agnostic '
-        '= pitch letters converted under the clef in force).  Non-trivial: the document has a chord in which a '
+        '= pitch letters converted under the clef in force); (3) a cell that is a placeholder is the same placeholder ("." or "*") '
+        'in all six encodings; (4) in the "full" profile (notes need not have a clef) every group of exports is preceded by an agnostic '
+        'export whose outcome is not defined and is ignored - it must leave nothing behind.  Non-trivial: the document has a chord in which a '
         'non-final member carries a signifier, or at least three encodings give pairwise different texts for some '
         'note.')
 ASSUMPTIONS = ['core alphabet: non-note cells contain neither "@" nor the middle dot (KF-SEP is tracked under C03)',
@@ -68,6 +70,8 @@ def check(case):
         if K.via_primed(primed, kdoc, encoding=K.ENCODINGS[e]) != K.dumps(kdoc, encoding=K.ENCODINGS[e]):
             raise Bad('exporter-with-a-past', f'{e}: an Exporter object that exported other documents before gives a different text than dumps')
     differing = False
+    undefined = set()
+    tag_ = lambda i_, x_: f'include={i_} exclude={x_}'  # noqa
     for inc, exc in [[None, None]] + case['sels']:
         kw = {}
         if inc is not None:
@@ -77,8 +81,26 @@ def check(case):
         sel = cats.selected(inc, exc)
         if not ({'DURATION', 'PITCH'} & sel):
             continue
+        if not case['agnostic']:
+            # an agnostic export of a document whose notes need not have a (supported) clef: whatever it returns or
+            # raises (often half-way through the rows) is ignored - it must leave nothing behind for the exports below
+            try:
+                kp.dumps(kdoc, encoding=K.ENCODINGS[('akern', 'aekern')[evals % 2]], **kw)
+                undefined.add('undefined-agnostic-export-returned')
+            except Exception:  # noqa
+                undefined.add('undefined-agnostic-export-raised')
         out = {e: K.dumps(kdoc, what=e, encoding=K.ENCODINGS[e], **kw) for e in encs}
         grids = {e: K.grid(out[e]) for e in encs}
+        # a cell that is a placeholder is the same placeholder in every encoding (all non-note cells are identical in the
+        # six encodings; a note emptied by the selection is no exception)
+        ref = grids['ekern']
+        for e in encs:
+            if len(grids[e]) == len(ref) and all(len(x) == len(y) for x, y in zip(grids[e], ref)):
+                for ri, (rx, ry) in enumerate(zip(grids[e], ref)):
+                    for cx, cy in zip(rx, ry):
+                        # (a basic encoding may reduce a cell that only holds signifiers to a placeholder of its own)
+                        if cx != cy and (cy in K.NULLS or (cx in K.NULLS and e in ('kern', 'akern', 'aekern'))):
+                            raise Bad('placeholder-differs', f'row {ri}: {e} writes {cx!r} where ekern writes {cy!r} ({tag_(inc, exc)})\n--- ekern\n{out["ekern"]}--- {e}\n{out[e]}')
         evals += len(encs)
         tag = f'include={inc} exclude={exc}'
         # one Exporter, ONE options object (and so one category set) whose encoding is changed between exports, in a
@@ -141,7 +163,7 @@ def check(case):
     chord_deco = any(c['k'] == 'chord' and any(n['sigs'] for n in c['notes'][:-1]) for _, _, c in S.cells(doc))
     return Result(nontrivial=chord_deco or differing, evals=evals,
                   classes=K.doc_classes(doc, a) + (['agnostic-profile'] if case['agnostic'] else []) +
-                  (['chord-with-decorated-inner-member'] if chord_deco else []), sample=text, key=text)
+                  (['chord-with-decorated-inner-member'] if chord_deco else []) + sorted(undefined), sample=text, key=text)
 
 
 def run(ctx):
